@@ -38,14 +38,20 @@ type ResponseOpts struct {
 	// UnknownTags, if non-nil, are extra tagged fields (tag -> raw bytes) appended
 	// to the top-level tagged-field section of a flexible response body.
 	UnknownTags map[uint32][]byte
+	// NestedUnknownTags, if non-nil, are appended to the tagged-field section
+	// of every nested structure (array elements included) of a flexible
+	// response body: a decoder that does not skip them exactly loses its
+	// place in the fields that follow.
+	NestedUnknownTags map[uint32][]byte
 }
 
 // ---------------------------------------------------------------------------
 // writer
 
 type wbuf struct {
-	b    []byte
-	lens []LenField
+	b      []byte
+	lens   []LenField
+	nested map[uint32][]byte // unknown tags for nested structures
 }
 
 func (w *wbuf) lf(off, size int, kind, path string, val int64) {
@@ -232,6 +238,9 @@ type taggedOut struct {
 }
 
 func encodeStruct(w *wbuf, fields []Field, m Msg, ver int16, flex bool, path string, extra map[uint32][]byte) error {
+	if extra == nil && path != "" && flex {
+		extra = w.nested
+	}
 	var tagged []taggedOut
 	for i := range fields {
 		f := &fields[i]
@@ -254,7 +263,7 @@ func encodeStruct(w *wbuf, fields []Field, m Msg, ver int16, flex bool, path str
 			if isDefault(f, v, ver) {
 				continue
 			}
-			sub := &wbuf{}
+			sub := &wbuf{nested: w.nested}
 			if err := encodeValue(sub, f, v, ver, true, p); err != nil {
 				return err
 			}
@@ -914,6 +923,7 @@ func EncodeResponse(apiKey, version int16, correlationID int32, body Msg, opts *
 	var extra map[uint32][]byte
 	if opts != nil {
 		extra = opts.UnknownTags
+		w.nested = opts.NestedUnknownTags
 	}
 	if err := encodeStruct(w, a.Response, body, version, a.Flexible(version), "", extra); err != nil {
 		return nil, nil, fmt.Errorf("refcodec: %s v%d response: %w", a.Name, version, err)
